@@ -1,4 +1,320 @@
 (* C08 — proofs about Model/Cycle.v *)
 From PG Require Import Lib.Strs Model.Cycle.
+From Coq Require Import Lia.
 
-Lemma stub_true : True. Proof. exact I. Qed.
+(* ---------- induction principle for the nested inductive [call] ---------- *)
+Section CallInd.
+  Variable P : call -> Prop.
+  Hypothesis HReg : forall k, P (Reg k).
+  Hypothesis HUnreg : forall k, P (Unreg k).
+  Hypothesis HCall : forall name allow body, Forall P body -> P (Call name allow body).
+  Fixpoint call_ind2 (t : call) : P t :=
+    match t with
+    | Reg k => HReg k
+    | Unreg k => HUnreg k
+    | Call name allow body =>
+        HCall name allow body
+          ((fix go (l : list call) : Forall P l :=
+              match l with
+              | [] => Forall_nil P
+              | x :: r => Forall_cons x (call_ind2 x) (go r)
+              end) body)
+    end.
+End CallInd.
+
+(* ---------- unfolding equation of [run] in terms of [run_list] ---------- *)
+Definition call_step (name : option str) (allow : bool) (body : list call) (c : ctx) : ctx :=
+  let c0 := set_allow (frame_in c) allow in
+  let (c1, a) := enter name c0 in
+  frame_out (
+  match a with
+  | AExisting =>
+      let c2 := exit name c1 in
+      match name with
+      | Some n =>
+          if truthy name then
+            if registered c2 n then c2
+            else exit name (run_list (add_fell (set_state c2 n NotStarted) n) body)
+          else exit name (run_list c2 body)
+      | None => exit name (run_list c2 body)
+      end
+  | APlaceholder => exit name c1
+  | ACreate => exit name c1
+  | AContinue => exit name (run_list c1 body)
+  end).
+
+Lemma run_body_run_list : forall l c,
+  (fix run_body (c : ctx) (l : list call) {struct l} : ctx :=
+     match l with [] => c | t :: r => run_body (run c t) r end) c l = run_list c l.
+Proof. induction l as [|t r IH]; intro c; [reflexivity | apply IH]. Qed.
+
+Lemma run_Call : forall c name allow body, run c (Call name allow body) = call_step name allow body c.
+Proof.
+  intros c name allow body. unfold call_step. cbn [run].
+  destruct (enter name (set_allow (frame_in c) allow)) as [c1 a].
+  rewrite !run_body_run_list. reflexivity.
+Qed.
+
+(* ---------- what the primitives do to stack and depth ---------- *)
+Ltac break_ifs :=
+  repeat match goal with
+         | |- context [if ?b then _ else _] => destruct b
+         | |- context [match ?x with _ => _ end] => is_var x; destruct x
+         end.
+
+Lemma check_stack_depth : forall name c,
+  stack (fst (check name c)) = stack c /\ depth (fst (check name c)) = depth c.
+Proof.
+  intros name c. unfold check.
+  destruct name as [n|]; [|split; reflexivity].
+  destruct (state_of c n); try (split; reflexivity);
+    (destruct (max_depth c <? depth c); [split; reflexivity|]);
+    (destruct (mem_str n (stack c)); [|split; reflexivity]);
+    cbv zeta; break_ifs; split; reflexivity.
+Qed.
+
+Lemma check_continue : forall n c c',
+  check (Some n) c = (c', AContinue) ->
+  mem_str n (stack c) = false /\ c' = set_state c n InProgress /\ depth c <= max_depth c
+  /\ (state_of c n = NotStarted \/ state_of c n = InProgress).
+Proof.
+  intros n c c' H. unfold check in H.
+  destruct (state_of c n) eqn:Es; try discriminate;
+    (destruct (max_depth c <? depth c) eqn:Ed; [discriminate|]);
+    (destruct (mem_str n (stack c)) eqn:Em; [cbv zeta in H; revert H; break_ifs; discriminate|]);
+    inversion H; subst; apply N.ltb_ge in Ed; repeat split; auto.
+Qed.
+
+Lemma enter_spec : forall name c c' a,
+  enter name c = (c', a) ->
+  depth c' = depth c + 1 /\
+  (stack c' = stack c \/
+   exists n, name = Some n /\ truthy name = true /\ a = AContinue /\ mem_str n (stack c) = false
+             /\ stack c' = stack c ++ [n]).
+Proof.
+  intros name c c' a H. unfold enter in H.
+  destruct (check name (set_depth c (depth c + 1))) as [c2 a2] eqn:E.
+  pose proof (check_stack_depth name (set_depth c (depth c + 1))) as [Hs Hd].
+  rewrite E in Hs, Hd. cbn [fst stack depth set_depth] in Hs, Hd.
+  destruct a2; destruct name as [n|]; try (inversion H; subst; split; [exact Hd | left; exact Hs]).
+  destruct (truthy (Some n)) eqn:Et; inversion H; subst.
+  - split; [exact Hd|]. right. exists n.
+    apply check_continue in E. destruct E as (Em & _ & _ & _).
+    cbn [stack set_depth] in Em. cbn [stack set_stack]. rewrite Hs. repeat split; auto.
+  - split; [exact Hd | left; exact Hs].
+Qed.
+
+(* ---------- list.remove on a duplicate-free list ---------- *)
+Lemma In_remove1 : forall n l x, In x (remove1 n l) -> In x l.
+Proof.
+  induction l as [|y l IH]; intros x H; simpl in *; [exact H|].
+  destruct (str_eqb n y); [right; exact H|].
+  destruct H as [H|H]; [left; exact H | right; apply IH; exact H].
+Qed.
+
+Lemma In_remove1_other : forall n l x, x <> n -> In x l -> In x (remove1 n l).
+Proof.
+  induction l as [|y l IH]; intros x Hne H; simpl in *; [exact H|].
+  destruct (str_eqb n y) eqn:E.
+  - apply str_eqb_eq in E. subst y. destruct H as [H|H]; [congruence | exact H].
+  - destruct H as [H|H]; [left; exact H | right; apply IH; assumption].
+Qed.
+
+Lemma NoDup_remove1 : forall n l, NoDup l -> NoDup (remove1 n l).
+Proof.
+  induction l as [|y l IH]; intro H; simpl; [exact H|].
+  inversion H as [|? ? Hn Hd]; subst.
+  destruct (str_eqb n y); [exact Hd|].
+  constructor; [intro Hin; apply Hn; eapply In_remove1; exact Hin | apply IH; exact Hd].
+Qed.
+
+Lemma notin_remove1 : forall n l, NoDup l -> ~ In n (remove1 n l).
+Proof.
+  induction l as [|y l IH]; intro H; simpl; [tauto|].
+  inversion H as [|? ? Hn Hd]; subst.
+  destruct (str_eqb n y) eqn:E.
+  - apply str_eqb_eq in E. subst y. exact Hn.
+  - intros [Hy|Hin]; [subst y; rewrite str_eqb_refl in E; discriminate | exact (IH Hd Hin)].
+Qed.
+
+Lemma NoDup_app_intro_single : forall (l : list str) n, NoDup l -> ~ In n l -> NoDup (l ++ [n]).
+Proof.
+  induction l as [|y l IH]; intros n H Hn; simpl.
+  - constructor; [tauto | constructor].
+  - inversion H as [|? ? Hy Hd]; subst. constructor.
+    + intro Hin. apply in_app_or in Hin. destruct Hin as [Hin|[Hin|[]]]; [tauto|].
+      subst. apply Hn. left. reflexivity.
+    + apply IH; [exact Hd | intro; apply Hn; right; assumption].
+Qed.
+
+Lemma mem_str_false : forall n l, mem_str n l = false <-> ~ In n l.
+Proof.
+  intros n l. rewrite <- mem_str_In. destruct (mem_str n l); split; intro H; try reflexivity; try discriminate.
+  exfalso. apply H. reflexivity.
+Qed.
+
+(* ---------- unified_exit_schema ---------- *)
+Definition exit_stack_of (name : option str) (st : list str) : list str :=
+  match name with
+  | Some n => if truthy name then (if mem_str n st then remove1 n st else st) else st
+  | None => st
+  end.
+
+Lemma exit_stack : forall name c, stack (exit name c) = exit_stack_of name (stack c).
+Proof.
+  intros name c. unfold exit, exit_stack_of.
+  assert (Hs : stack (if 0 <? depth c then set_depth c (depth c - 1) else c) = stack c)
+    by (destruct (0 <? depth c); reflexivity).
+  destruct name as [n|]; [|exact Hs].
+  destruct (truthy (Some n)); [|exact Hs].
+  rewrite Hs.
+  destruct (mem_str n (stack c)); cbv zeta;
+    match goal with |- context [alookup ?k ?d] => destruct (alookup k d) as [[]|] end;
+    cbn [stack set_state set_states set_stack]; try rewrite Hs; reflexivity.
+Qed.
+
+Lemma exit_depth : forall name c,
+  depth (exit name c) = if 0 <? depth c then depth c - 1 else depth c.
+Proof.
+  intros name c. unfold exit.
+  assert (Hd : depth (if 0 <? depth c then set_depth c (depth c - 1) else c)
+               = if 0 <? depth c then depth c - 1 else depth c)
+    by (destruct (0 <? depth c); reflexivity).
+  destruct name as [n|]; [|exact Hd].
+  destruct (truthy (Some n)); [|exact Hd].
+  cbv zeta.
+  destruct (mem_str n (stack (if 0 <? depth c then set_depth c (depth c - 1) else c)));
+    match goal with |- context [alookup ?k ?d] => destruct (alookup k d) as [[]|] end;
+    cbn [depth set_state set_states set_stack]; exact Hd.
+Qed.
+
+Lemma exit_stack_incl : forall name st, incl (exit_stack_of name st) st.
+Proof.
+  intros name st x Hx. unfold exit_stack_of in Hx.
+  destruct name as [n|]; [|exact Hx].
+  destruct (truthy (Some n)); [|exact Hx].
+  destruct (mem_str n st); [eapply In_remove1; exact Hx | exact Hx].
+Qed.
+
+Lemma exit_stack_nodup : forall name st, NoDup st -> NoDup (exit_stack_of name st).
+Proof.
+  intros name st H. unfold exit_stack_of.
+  destruct name as [n|]; [|exact H].
+  destruct (truthy (Some n)); [|exact H].
+  destruct (mem_str n st); [apply NoDup_remove1; exact H | exact H].
+Qed.
+
+Lemma exit_stack_notin : forall n st,
+  truthy (Some n) = true -> NoDup st -> ~ In n (exit_stack_of (Some n) st).
+Proof.
+  intros n st Ht H. unfold exit_stack_of. rewrite Ht.
+  destruct (mem_str n st) eqn:E; [apply notin_remove1; exact H | apply mem_str_false; exact E].
+Qed.
+
+(* ---------- the order "c' is below c": what every step after the enter preserves ---------- *)
+Definition below (c' c : ctx) : Prop :=
+  NoDup (stack c) -> NoDup (stack c') /\ incl (stack c') (stack c) /\ depth c' <= depth c.
+
+Lemma below_refl : forall c, below c c.
+Proof. intros c H. repeat split; [exact H | apply incl_refl | lia]. Qed.
+
+Lemma below_trans : forall a b c, below a b -> below b c -> below a c.
+Proof.
+  intros a b c H1 H2 Hc. destruct (H2 Hc) as (N2 & I2 & D2). destruct (H1 N2) as (N1 & I1 & D1).
+  repeat split; [exact N1 | eapply incl_tran; eassumption | lia].
+Qed.
+
+Lemma below_exit : forall name c, below (exit name c) c.
+Proof.
+  intros name c H. rewrite exit_stack, exit_depth. repeat split.
+  - apply exit_stack_nodup. exact H.
+  - apply exit_stack_incl.
+  - destruct (0 <? depth c); lia.
+Qed.
+
+Lemma below_same : forall c' c, stack c' = stack c -> depth c' = depth c -> below c' c.
+Proof. intros c' c Hs Hd H. rewrite Hs, Hd. repeat split; [exact H | apply incl_refl | lia]. Qed.
+
+Lemma run_list_below : forall l,
+  Forall (fun t => forall c, below (run c t) c) l -> forall c, below (run_list c l) c.
+Proof.
+  induction 1 as [|t r Ht _ IH]; intro c; cbn [run_list]; [apply below_refl|].
+  eapply below_trans; [apply IH | apply Ht].
+Qed.
+
+(* after the enter, whatever happens below c1 and ends with [exit name] is below the state before the call *)
+Lemma call_tail : forall name a c c1 Y,
+  NoDup (stack c) ->
+  depth c1 = depth c + 1 ->
+  (stack c1 = stack c \/
+   exists n, name = Some n /\ truthy name = true /\ a = AContinue /\ mem_str n (stack c) = false
+             /\ stack c1 = stack c ++ [n]) ->
+  below Y c1 ->
+  NoDup (stack (exit name Y)) /\ incl (stack (exit name Y)) (stack c) /\ depth (exit name Y) <= depth c.
+Proof.
+  intros name a c c1 Y Hc Hd Hs HY.
+  assert (N1 : NoDup (stack c1)).
+  { destruct Hs as [Hs|(n & _ & _ & _ & Hm & Hs)]; rewrite Hs; [exact Hc|].
+    apply NoDup_app_intro_single; [exact Hc | apply mem_str_false; exact Hm]. }
+  destruct (HY N1) as (NY & IY & DY).
+  destruct (below_exit name Y NY) as (NX & IX & DX).
+  split; [exact NX|]. split.
+  - intros x Hx. pose proof (IY x (IX x Hx)) as H1.
+    destruct Hs as [Hs|(n & Hn & Ht & _ & _ & Hs)]; rewrite Hs in H1; [exact H1|].
+    apply in_app_or in H1. destruct H1 as [H1|[H1|[]]]; [exact H1|]. subst x name.
+    exfalso. rewrite exit_stack in Hx. exact (exit_stack_notin n (stack Y) Ht NY Hx).
+  - rewrite exit_depth. rewrite exit_depth in DX. destruct (0 <? depth Y) eqn:E; [lia|].
+    apply N.ltb_ge in E. lia.
+Qed.
+
+Lemma same_below : forall c' c, stack c' = stack c -> depth c' = depth c -> below c' c.
+Proof. exact below_same. Qed.
+
+Theorem run_below : forall t c, below (run c t) c.
+Proof.
+  induction t as [k|k|name allow body IH] using call_ind2; intro c.
+  - apply below_same; reflexivity.
+  - apply below_same; reflexivity.
+  - rewrite run_Call. unfold call_step. intro Hc.
+    destruct (enter name (set_allow (frame_in c) allow)) as [c1 a] eqn:E.
+    apply enter_spec in E. destruct E as [Hd Hs]. cbn [depth stack set_allow frame_in set_nest] in Hd, Hs.
+    pose proof (run_list_below body IH) as HL.
+    assert (Hout : forall X, stack (frame_out X) = stack X /\ depth (frame_out X) = depth X) by (intro; split; reflexivity).
+    cut (forall Y, below Y c1 ->
+           NoDup (stack (frame_out (exit name Y))) /\ incl (stack (frame_out (exit name Y))) (stack c)
+           /\ depth (frame_out (exit name Y)) <= depth c).
+    { intro K. destruct a.
+      - apply K. apply HL.
+      - apply K. apply below_refl.
+      - apply K. apply below_refl.
+      - destruct name as [n|].
+        + destruct (truthy (Some n)).
+          * destruct (registered (exit (Some n) c1) n).
+            -- apply K. apply below_refl.
+            -- apply K. eapply below_trans; [apply HL|].
+               eapply below_trans; [|apply below_exit]. apply below_same; reflexivity.
+          * apply K. eapply below_trans; [apply HL | apply below_exit].
+        + apply K. eapply below_trans; [apply HL | apply below_exit]. }
+    intros Y HY. destruct (Hout (exit name Y)) as [e1 e2]. rewrite e1, e2.
+    eapply call_tail; eauto.
+Qed.
+
+Theorem run_list_below_all : forall l c, below (run_list c l) c.
+Proof. intros l c. apply run_list_below. apply Forall_forall. intros t _. apply run_below. Qed.
+
+(* ---------- C08, balance: the rest state is restored by EVERY call tree ---------- *)
+Lemma rest_of_below : forall c' c, below c' c -> rest c -> rest c'.
+Proof.
+  intros c' c H [Hs Hd]. destruct H as (_ & I & D); [rewrite Hs; constructor|].
+  rewrite Hs in I. rewrite Hd in D. split.
+  - destruct (stack c') as [|x l]; [reflexivity|]. exfalso. apply (I x). left. reflexivity.
+  - lia.
+Qed.
+
+Theorem balanced : forall t c, rest c -> rest (run c t).
+Proof. intros t c. apply rest_of_below. apply run_below. Qed.
+
+Theorem balanced_list : forall l c, rest c -> rest (run_list c l).
+Proof. intros l c. apply rest_of_below. apply run_list_below_all. Qed.
+
+(* the stronger reading is false: the stack after a call is NOT always the stack before it *)
